@@ -23,12 +23,14 @@ def space(ctx):
     """(capacity, depth bound, sizes, options). Options: split = the I/O of a disk job and the delivery of its result
     are separate events, so requests also interleave with a job whose segment/file work is done but whose callback has
     not run yet; eager = once per history the jobs launched by the next request run to completion (callback
-    included) before that request returns, as a fast disk thread does; stale_writers = the 16-minute jump may also happen while a writer is open (the store then treats the
+    included) before that request returns, as a fast disk thread does; purge_mid = a purge of the key may be handled
+    between a page-out job's attach and its unlink; trim = the store is configured with more than the machine offers
+    and has to trim itself to the capacity; stale_writers = the 16-minute jump may also happen while a writer is open (the store then treats the
     unfinished dataset as abandoned and may page it out)."""
     quick = [(4, 8, SIZES, {}), (5, 7, SIZES, {}), (13500, 6, BIG, {}), (4, 7, SIZES, {"split": True}), (4, 7, SIZES, {"stale_writers": True}),
-             (4, 7, SIZES, {"eager": True})]
+             (4, 7, SIZES, {"eager": True}), (4, 7, SIZES, {"purge_mid": True, "trim": True})]
     thorough = [(4, 13, SIZES, {}), (5, 12, SIZES, {}), (13500, 10, BIG, {}), (4, 11, SIZES, {"split": True}), (5, 10, SIZES, {"split": True}),
-                (4, 11, SIZES, {"stale_writers": True}), (4, 9, SIZES, {"stale_writers": True, "split": True}), (4, 11, SIZES, {"eager": True}), (5, 10, SIZES, {"eager": True})]
+                (4, 11, SIZES, {"stale_writers": True}), (4, 9, SIZES, {"stale_writers": True, "split": True}), (4, 11, SIZES, {"eager": True}), (5, 10, SIZES, {"eager": True}), (4, 11, SIZES, {"purge_mid": True, "trim": True})]
     return ctx.pick(quick, thorough)
 
 
@@ -45,7 +47,10 @@ def explore(ctx, prop: str, with_liveness: bool):
         if opt.get("stale_writers"):
             cfg["age"] = "writers"
         if opt.get("eager"):
-            cfg["eager"] = True  # C09 also lets readers grow older than the staleness window
+            cfg["eager"] = True
+        for o in ("purge_mid", "trim"):
+            if opt.get(o):
+                cfg[o] = True  # C09 also lets readers grow older than the staleness window
 
         def expand(hist, cfg=cfg):
             w = shmworld.build(cfg, hist)
